@@ -209,33 +209,73 @@ def d3(chk, prog):
 def d4(chk, prog):
     chk.clause("D4", "matrix exports: mismatching bins or duplicate sample ids are refused before a column is added")
     fi = prog.fn(f"{EXP}.merge_samples")
-    par = parents(fi.node)
-    loops = [n for n in own_nodes(fi.node) if isinstance(n, ast.For) and "filenames[1:]" in norm(n.iter)]
-    if len(loops) != 1:
-        raise AnalysisError("merge_samples: loop over filenames[1:] vanished")
-    loop = loops[0]
-    stores = [s for s in loop.body if isinstance(s, ast.Assign) and norm(s.targets[0]) == "out_table[cnarr.sample_id]"]
-    chk.floor("column stores in merge_samples loop", len(stores), 1)
-    guards = [n for n in loop.body if isinstance(n, ast.If) and any(isinstance(s, ast.Raise) for s in n.body)]
-    coord = [g for g in guards if "label_with_gene(cnarr)" in norm(g.test) and "out_table['label']" in norm(g.test) and "len(cnarr) == len(out_table)" in norm(g.test)
-             and isinstance(g.test, ast.UnaryOp) and isinstance(g.test.op, ast.Not)]
-    dup = [g for g in guards if norm(g.test) == "cnarr.sample_id in out_table.columns"]
-    for s in stores:
-        chk.decide(any(dominates(g, s, par) for g in coord), "must-pass-through", "bins-differ raise precedes the sample's column", f"{fi.qn}::coordinate check", fi.loc(s),
-                   "a sample whose bins differ (count or chromosome:start-end:gene labels) must be refused before its log2 column is added")
-        chk.decide(any(dominates(g, s, par) for g in dup), "must-pass-through", "duplicate-sample-id raise precedes the sample's column", f"{fi.qn}::duplicate id check", fi.loc(s),
-                   "a second file with the same sample id would overwrite the first one's column")
-    lab = [n for n in own_nodes(prog.fn(f"{EXP}.merge_samples.label_with_gene").node) if isinstance(n, ast.JoinedStr)]
-    ok = len(lab) == 1 and [norm(v.value) for v in lab[0].values if isinstance(v, ast.FormattedValue)] == ["row.chromosome", "row.start", "row.end", "row.gene"]
-    chk.decide(ok, "must-pass-through", "the bin label is chromosome:start-end:gene", f"{fi.qn}::label", fi.loc(), "bins are compared through a label that must contain chromosome, start, end and gene")
-    first = [n for n in own_nodes(fi.node) if isinstance(n, ast.Assign) and norm(n.targets[0]) == "out_table[first_cnarr.sample_id]" and norm(n.value) == "first_cnarr['log2']"]
-    ok = bool(first) and all(norm(s.value) == "cnarr['log2']" for s in stores)
-    chk.decide(ok, "must-pass-through", "each sample's log2 goes into the column named by its sample id", f"{fi.qn}::columns", fi.loc(), "one log2 column per sample id")
+    tb = Table(chk, "must-pass-through", "merge_samples on literal tables: one log2 column per sample id over identical bins; differing bins (count, coordinates, gene) and duplicate ids raise", fi.loc(), fi.qn)
+    bins = [("chr1", 0, 100, "A"), ("chr1", 100, 200, "B"), ("chr2", 0, 50, "C")]
+
+    def tab(sid, rows, tagv):
+        return make_ga("CopyNumArray", [dict(chromosome=c, start=s_, end=e_, gene=g, log2=Term.sym(f"{tagv}{i}")) for i, (c, s_, e_, g) in enumerate(rows)], {"sample_id": sid}, exact=True)
+    cases = [("three matching samples", [("S1", bins, "x"), ("S2", bins, "y"), ("S3", bins, "z")], None),
+             ("one sample", [("S1", bins, "x")], None),
+             ("fewer bins", [("S1", bins, "x"), ("S2", bins[:2], "y")], "ValueError"),
+             ("same count, another start", [("S1", bins, "x"), ("S2", bins[:2] + [("chr2", 10, 50, "C")], "y")], "ValueError"),
+             ("same count, another gene", [("S1", bins, "x"), ("S2", [bins[0], ("chr1", 100, 200, "Z"), bins[2]], "y")], "ValueError"),
+             ("same count, bins permuted", [("S1", bins, "x"), ("S2", [bins[1], bins[0], bins[2]], "y")], "ValueError"),
+             ("duplicate sample id", [("S1", bins, "x"), ("S2", bins, "y"), ("S1", bins, "z")], "ValueError"),
+             ("mismatch in the third file only", [("S1", bins, "x"), ("S2", bins, "y"), ("S3", bins[:1], "z")], "ValueError")]
+    for label, samples, want_exc in cases:
+        W.reset()
+        files = {f"f{i}.cnr": tab(sid, rows, tagv) for i, (sid, rows, tagv) in enumerate(samples)}
+        model = Model()
+        model.prims["cnvlib.cmdutil.read_cna"] = lambda it, fname, *a, files=files, **k: files[fname]
+        it = Interp(prog, model)
+        try:
+            out = it.run(fi.qn, [list(files)])
+            raised = None
+        except Raised as r:
+            out, raised = None, str(r)
+        except Undecided as u:
+            tb.undecided.append(f"{label}: {u}")
+            continue
+        if want_exc:
+            tb.cell(raised is not None and want_exc in raised, dict(case=label, raised=raised, want=want_exc))
+            continue
+        ok = raised is None and isinstance(out, DF) and out.n == len(bins)
+        if ok:
+            labs = [str(x) for x in out.cols["label"].v] if "label" in out.cols else None
+            ok = labs == [f"{c}:{s_}-{e_}:{g}" for c, s_, e_, g in bins]
+            for sid, rows, tagv in samples:
+                ok = ok and sid in out.cols and all(same(out.cols[sid].v[i], Term.sym(f"{tagv}{i}")) for i in range(len(bins)))
+            ok = ok and [c for c in out.cols if not c.startswith("__")] == ["chromosome", "start", "end", "gene", "label"] + [s_[0] for s_ in samples]
+        tb.cell(ok, dict(case=label, raised=raised, columns=[c for c in out.cols if not c.startswith("__")] if isinstance(out, DF) else repr(out)[:60]))
+    W.reset()
+    it = Interp(prog)
+    out = tb.guard(lambda: ("v", it.run(fi.qn, [[]])), "no files")
+    if out is not None:
+        tb.cell(out[1] == [], dict(case="no files", got=repr(out[1])))
+    tb.done("the jtv / cdt matrix is not one log2 column per sample over identical bins (or differing bins / duplicate ids are not refused)")
+    tb3 = Table(chk, "must-pass-through", "fmt_jtv / fmt_cdt on a literal 2-bin x 2-sample table: header and one row per bin = its label + every sample's value", "cnvlib/export.py", f"{EXP}::matrix formats")
     for name in ("fmt_jtv", "fmt_cdt"):
         f = prog.fn(f"{EXP}.{name}")
-        drops = [n for n in own_nodes(f.node) if isinstance(n, ast.Call) and isinstance(n.func, ast.Attribute) and n.func.attr == "drop" and norm(n.func.value) == "table"]
-        ok = len(drops) == 1 and ast.literal_eval(drops[0].args[0]) == ["chromosome", "start", "end", "gene", "label"] and "table['label']" in norm(f.node)
-        chk.decide(ok, "must-pass-through", f"{name}: one row per bin = its label + the samples' columns", f"{f.qn}::rows", f.loc(), f"{name} must keep the label and every sample column, dropping only the coordinate columns")
+        W.reset()
+        vals = {"S1": [Term.sym("x0"), Term.sym("x1")], "S2": [Term.sym("y0"), Term.sym("y1")]}
+        table = DF({"chromosome": Vec(["chr1", "chr1"], aligned=True), "start": Vec([0, 100], aligned=True), "end": Vec([100, 200], aligned=True), "gene": Vec(["A", "B"], aligned=True),
+                    "label": Vec(["chr1:0-100:A", "chr1:100-200:B"], aligned=True), "S1": Vec(vals["S1"], aligned=True), "S2": Vec(vals["S2"], aligned=True)}, 2)
+        table.exact = True
+        it = Interp(prog)
+        out = tb3.guard(lambda: it.run(f.qn, [["S1", "S2"], table]), name)
+        if out is None:
+            continue
+        header, rows = out
+        rows = [tuple(r) for r in it.iterate(rows)]
+        if name == "fmt_jtv":
+            ok = list(header) == ["CloneID", "Name", "S1", "S2"] and len(rows) == 2 and all(len(r) == 4 and r[0] == "IMAGE:" and r[1] == table.cols["label"].v[i] and same(r[2], vals["S1"][i]) and same(r[3], vals["S2"][i])
+                                                                                      for i, r in enumerate(rows))
+        else:
+            ok = list(header) == ["GID", "CLID", "NAME", "GWEIGHT", "S1", "S2"] and len(rows) == 4 and list(rows[0]) == ["AID", "", "", "", "ARRY000X", "ARRY001X"] and \
+                list(rows[1]) == ["EWEIGHT", "", "", "", "1", "1"] and all(len(r) == 6 and str(r[0]) == f"GENE{i}X" and str(r[1]) == f"IMAGE:{i}" and r[2] == table.cols["label"].v[i] and r[3] == 1
+                                                                      and same(r[4], vals["S1"][i]) and same(r[5], vals["S2"][i]) for i, r in enumerate(rows[2:]))
+        tb3.cell(ok, dict(format=name, header=list(header), rows=[[repr(x) for x in r] for r in rows]))
+    tb3.done("a matrix export row is not the bin's label followed by every sample's value")
     fn = prog.fn(f"{EXP}.export_nexus_basic")
     ok = any(isinstance(n, ast.Assign) and norm(n.targets[0]) == "out_table['probe']" and norm(n.value) == "cnarr.labels()" for n in own_nodes(fn.node))
     chk.decide(ok, "must-pass-through", "nexus-basic: one row per bin with the bin's label", f"{fn.qn}::probe", fn.loc(), "nexus-basic must label each bin with cnarr.labels()")
@@ -276,6 +316,23 @@ MUTANTS = [
     dict(name="vcf: END from start", file=_E, old='            f"END={out_row.end}",', new='            f"END={out_row.start}",'),
     dict(name="vcf: sexes swapped at absolute_expect", file=_E, old='        abs_expect = call.absolute_expect(segments, ploidy, diploid_parx_genome, is_sample_female)\n    else:', new='        abs_expect = call.absolute_expect(segments, ploidy, diploid_parx_genome, is_haploid_x_reference)\n    else:'),
     dict(name="seg: probes not renamed", file="skgenome/tabio/seg.py", old='        rename_cols["probes"] = "num.mark"  # or num_probes\n', new=""),
+    dict(name="jtv rows lose the last sample column", file="cnvlib/export.py", old="""                    "Name": table["label"],
+                }
+            ),
+            table.drop(["chromosome", "start", "end", "gene", "label"], axis=1),""", new="""                    "Name": table["label"],
+                }
+            ),
+            table.drop(["chromosome", "start", "end", "gene", "label"], axis=1).iloc[:, :-1],"""),
+    dict(name="cdt NAME column takes the gene instead of the label", file="cnvlib/export.py", old='                        ("NAME", table["label"]),', new='                        ("NAME", table["gene"]),'),
+    dict(name="twin: merge_samples compares counts and labels in two statements", expect="silent", file="cnvlib/export.py", old="""        if not (
+            len(cnarr) == len(out_table)
+            and (label_with_gene(cnarr) == out_table["label"]).all()
+        ):
+            raise ValueError(f"Mismatched row coordinates in {fname}")""", new="""        if len(cnarr) != len(out_table):
+            raise ValueError(f"Mismatched row coordinates in {fname}")
+        same_bins = label_with_gene(cnarr) == out_table["label"]
+        if not same_bins.all():
+            raise ValueError(f"Mismatched row coordinates in {fname}")"""),
     dict(name="seeded C20f: SEG tables concatenated on their common columns only", file="skgenome/tabio/seg.py", old="    return pd.concat(results)\n", new="    return pd.concat(results, join=\"inner\")\n"),
     dict(name="seeded C20c: export_seg drops empty tables, ids no longer paired", file="cnvlib/export.py", old="    out_table = tabio.seg.write_seg(dframes, sample_ids, chrom_ids)\n", new="    dframes = [dframe for dframe in dframes if len(dframe)]\n    out_table = tabio.seg.write_seg(dframes, sample_ids, chrom_ids)\n"),
     dict(name="export_seg reverses the ids", file="cnvlib/export.py", old="    out_table = tabio.seg.write_seg(dframes, sample_ids, chrom_ids)\n", new="    out_table = tabio.seg.write_seg(dframes, sample_ids[::-1], chrom_ids)\n"),
